@@ -26,9 +26,9 @@ var props = map[string]*propCfg{
 		Real: volReal, Stub: []string{"crash = file truncation to a write-order-respecting prefix (no reordered write-back)", "LevelDB directory state at the crash = snapshot after the last complete operation, or lost"},
 		Assume: []string{"crash states are prefixes of the append-only files as the property states", "empty-payload blobs: see known_findings.json"}, CrashIsViolation: true},
 	"C01": {Engine: "volsim", Variants: []string{""}, Quick: 1600, Thorough: 120000, Chunk: 100, QuickWall: 100, ThorWall: 1500,
-		Rule: "each run = a generated history of uploads (incl. identical rewrites, empty payloads in a fraction of runs, batched fsync path), deletes, reads, read-only toggles and clean restarts on a real Store/Volume, checked step by step against a reference map; every third run arms data-file write faults (EIO, ENOSPC, short write, failed sync, failed truncate) inside operations; non-trivial = at least one overwrite, delete, restart or fault; distinct = distinct abstract traces (op kinds and outcomes, payloads erased)",
+		Rule: "each run = a generated history of uploads (incl. identical rewrites, empty payloads in a fraction of runs, batched fsync path), deletes, reads, read-only toggles and clean restarts on a real Store/Volume, checked step by step against a reference map; a quarter of the runs upload with another cookie than the stored one and send GET and DELETE requests presenting another cookie through the real volume-server HTTP handler (privateStoreHandler on an httptest recorder; the GET must not return the data, the DELETE must be refused and remove nothing); every third run arms data-file write faults (EIO, ENOSPC, short write, failed sync, failed truncate) inside operations; non-trivial = at least one overwrite, delete, restart or fault; distinct = distinct abstract traces (op kinds and outcomes, payloads erased)",
 		Real: volReal, Stub: []string{"data-file faults injected through a wrapper around Volume.DataBackend (existing interface seam)"},
-		Assume: []string{"cookie checks on read/delete live in the HTTP handlers and are exercised by the cluster engine, not here", "a faulted operation may fail or have taken effect; un-faulted operations must match the model exactly"}},
+		Assume: []string{"the volume server around the Store is built by an overlay-added constructor that sets only the fields the handlers read (no white list, no signing key, local reads only)", "a faulted operation may fail or have taken effect; un-faulted operations must match the model exactly"}},
 	"C02": {Engine: "volsim", Variants: []string{""}, Quick: 1200, Thorough: 60000, Chunk: 100, QuickWall: 100, ThorWall: 1200,
 		Rule: "each run writes blobs (first 512 runs walk boundary lengths x name/mime lengths x flags; versions 2 and 3), scans the data file record by record against the harness's append log (order, count, 8-byte alignment), then flips single bits of stored data bytes and reads; non-trivial = at least one byte flip or scan; distinct = distinct abstract traces",
 		Real: volReal, Stub: []string{"silent corruption = one flipped bit in the data region of a stored record"},
